@@ -1808,6 +1808,16 @@ class Machine:
                     bound[n] = alt
         if ghost:
             bound.update(ghost)
+        # ghost parameters of the callee (universally quantified in its contract): instantiated at the caller's ghost of the same name
+        # when there is one, otherwise at a fresh value
+        for gname, gsort in c.ghost.items():
+            if gname not in bound:
+                if gname in self.contract.ghost and gname in self.env:
+                    bound[gname] = self.env[gname]
+                elif gname in self.ghost_env:
+                    bound[gname] = self.ghost_env[gname]
+                else:
+                    bound[gname] = self.fresh_of(gsort, gname)
         n_ord = self.call_ord.get(key, 0) + 1
         self.call_ord[key] = n_ord
         site = f"{self.contract.key}/call:{key}#{n_ord}"
